@@ -173,6 +173,26 @@ func (s *scripted) Forward(req []byte) ([]byte, error) {
 	if len(req) > 0 && req[0] == 0xFC { // the underlying agent hangs up without answering
 		return nil, io.EOF
 	}
+	if len(req) > 0 && (req[0] == 26 || req[0] == 21) { // smartcard requests: the reader id's first letter scripts the reply
+		var m struct {
+			ID   string
+			Rest []byte `ssh:"rest"`
+		}
+		if ssh.Unmarshal(req[1:], &m) == nil && len(m.ID) > 0 {
+			switch m.ID[0] {
+			case 'S':
+				return []byte{6}, nil
+			case 'F':
+				return []byte{5}, nil
+			case 'E':
+				return []byte{}, nil
+			case 'X':
+				return nil, errFail
+			case 'L':
+				return []byte{6, 1, 2, 3}, nil
+			}
+		}
+	}
 	if len(req) > 0 && req[0] == 0xFD { // the reply is the rest of the request, verbatim
 		return append([]byte{}, req[1:]...), nil
 	}
